@@ -5,6 +5,9 @@
 #include "../seams/seams.hpp"
 #include "randomx.h"
 #include <stdio.h>
+#include <stdlib.h>
+#include <unistd.h>
+#include <sys/wait.h>
 #include <algorithm>
 #include <functional>
 #include <set>
@@ -165,6 +168,33 @@ static void prime_request_counts(Context &gc) {
 	exec::Options opt; opt.run_index = ~(uint64_t)0; // like the warm-up history: real allocator, nothing judged
 	exec::Report rep = exec::execute(p, opt);
 	for (auto &t : targets) gc.request_counts[t.second] = (rep.invalid || t.first >= rep.results.size()) ? 0 : rep.results[t.first].requests;
+}
+
+// cold enumeration: the request counts come from a forked child, so that this process has made no library call yet
+void prime_request_counts_in_child(Context &gc) {
+	int fd[2];
+	if (pipe(fd) != 0) return;
+	pid_t pid = fork();
+	if (pid == 0) {
+		close(fd[0]);
+		prime_request_counts(gc);
+		std::string out;
+		for (auto &kv : gc.request_counts) out += kv.first + "=" + std::to_string(kv.second) + "\n";
+		size_t off = 0; while (off < out.size()) { ssize_t w = write(fd[1], out.data() + off, out.size() - off); if (w <= 0) break; off += (size_t)w; }
+		_exit(0);
+	}
+	close(fd[1]);
+	std::string in; char buf[4096]; ssize_t r;
+	while ((r = read(fd[0], buf, sizeof buf)) > 0) in.append(buf, (size_t)r);
+	close(fd[0]);
+	int st = 0; waitpid(pid, &st, 0);
+	size_t pos = 0;
+	while (pos < in.size()) {
+		size_t nl = in.find('\n', pos); if (nl == std::string::npos) break;
+		std::string line = in.substr(pos, nl - pos); pos = nl + 1;
+		size_t eq = line.rfind('=');
+		if (eq != std::string::npos) gc.request_counts[line.substr(0, eq)] = atoi(line.c_str() + eq + 1);
+	}
 }
 
 void init_context(Context &gc) {
@@ -462,6 +492,7 @@ static void build_enumeration(Context &gc, bool pairs) {
 	}
 	// pack items that share a setup (same key) into plans
 	size_t per_plan = gc.small ? 12 : 40;
+	if (gc.mode == "enum-cold") per_plan = 1; // every item in a process of its own: the failing call is the first of its kind the process makes
 	for (int key : {0, 2}) {
 		std::vector<Item> sel; for (auto &it : items) if (it.key == key) sel.push_back(it);
 		for (size_t pos = 0; pos < sel.size(); pos += per_plan) {
@@ -834,7 +865,7 @@ uint64_t enum_size(Context &gc) {
 ops::Plan generate(Context &gc, uint64_t run_seed, uint64_t index) {
 	bool thorough = gc.tier == "thorough";
 	const std::string &P = gc.property;
-	if (P == "C15" && gc.mode == "enum") {
+	if (P == "C15" && (gc.mode == "enum" || gc.mode == "enum-cold")) {
 		if (gc.enumeration.empty()) build_enumeration(gc, thorough);
 		Plan p = gc.enumeration[index % gc.enumeration.size()];
 		p.seed = run_seed; p.heap_seed = rt::mix64(run_seed, 77) | 1;
